@@ -9,13 +9,20 @@ from .wf import wf, denotes, snapshot, unchanged, install_poison
 
 
 def gen_regen(tier, rng):
-    for _ in range(count(tier, 120, 1200)):
-        yield {"p": rand_poly(rng, dtype=rng.choice(["int64", "float64"])), "retain": rng.random() < 0.5}
+    from .gen import special_exponents
+    for k in range(count(tier, 160, 1600)):
+        exps = None
+        if k % 4 == 0:
+            # storage keys made of characters that str methods / numpy string handling treat specially (digits, white space,
+            # control characters, combining marks ...): the key of a term is chr(exponent + KEY_OFFSET) per indeterminate
+            exps = special_exponents(rng) + ([0] if rng.random() < 0.5 else [])
+        yield {"p": rand_poly(rng, dtype=rng.choice(["int64", "float64"]), exps=exps), "retain": rng.random() < 0.5}
 
 
 @check("C03", "regenerate.from_attributes_raw_todict", gen_regen,
        functions=("numpoly.polynomial_from_attributes", "numpoly.polynomial", "numpoly.ndpoly"),
-       note="bounded: polynomials with <=3 terms (incl. all-zero terms when retained), <=3 indeterminates, 8 shapes")
+       note="bounded: polynomials with <=3 terms (incl. all-zero terms when retained), <=3 indeterminates, 8 shapes; a quarter "
+            "with exponents whose key characters are digits / white space / control / combining characters")
 def regenerate(inp):
     import numpoly
     install_poison()
